@@ -285,6 +285,17 @@ def check(case, stats: Stats):
                     parts.update(one)
                 if repr(sorted(whole.items())) != repr(sorted(parts.items())):
                     raise Violation(f'extra fields {whole!r} != union of fields taken one at a time {parts!r}\n{tc}\n{text}', case, 'removal:fields')
+            # --- (c2) a let: binding (failing or not) governs only what reads it: fields that read none of the rule's let names are the same without the lets
+            if r['fields'] and r['lets'] and r['category']:
+                let_names = {n.lower() for n, _ in r['lets']}
+                free = [f for f in r['fields'] if not ({str(n[1]).lower() for n in lang.walk(f[1]) if n[0] in ('var', 'name') and isinstance(n[1], str)} & let_names)]
+                if free:
+                    with_lets = safe(obs.engine_classify, 'fields with lets', case, load_or_none(R.render_file(dict(rf, rules=[dict(r, match=['lit', True], fields=free)]))), txn, rows)['extra_fields']
+                    without = safe(obs.engine_classify, 'fields without lets', case, load_or_none(R.render_file(dict(rf, rules=[dict(r, match=['lit', True], fields=free, lets=[])]))), txn, rows)['extra_fields']
+                    classes.add('fields_independent_of_lets')
+                    if repr(sorted(with_lets.items())) != repr(sorted(without.items())):
+                        raise Violation(f'fields that read none of the let bindings {sorted(let_names)} are {with_lets!r} with the bindings and {without!r} without them\n{tc}\n'
+                                        f'{R.render_file(dict(rf, rules=[dict(r, match=["lit", True], fields=free)]))}', case, 'removal:lets-vs-fields')
         classes |= failing
         if failing and sum(alone) >= 1:
             nontrivial = True
